@@ -5,8 +5,18 @@
 //! automatically release pins when queries complete.
 
 use parking_lot::RwLock;
-use std::collections::HashMap;
+use std::collections::{HashMap, HashSet};
 use std::sync::Arc;
+
+/// Pin counts and in-flight deletions, kept under one lock so that "not pinned, so
+/// delete it" and "not being deleted, so pin it" cannot both succeed for one path.
+#[derive(Debug, Default)]
+struct PinState {
+    /// Map from chunk path to pin count
+    pinned: HashMap<String, usize>,
+    /// Paths the garbage collector is deleting right now
+    deleting: HashSet<String>,
+}
 
 /// Registry tracking chunks pinned by active queries.
 ///
@@ -18,39 +28,77 @@ use std::sync::Arc;
 /// chunk are handled correctly.
 #[derive(Debug, Default, Clone)]
 pub struct ChunkPinRegistry {
-    /// Map from chunk path to pin count
-    pinned: Arc<RwLock<HashMap<String, usize>>>,
+    state: Arc<RwLock<PinState>>,
 }
 
 impl ChunkPinRegistry {
     pub fn new() -> Self {
         Self {
-            pinned: Arc::new(RwLock::new(HashMap::new())),
+            state: Arc::new(RwLock::new(PinState::default())),
         }
     }
 
     /// Pin a set of chunk paths, returning a guard that unpins on drop.
     pub fn pin(&self, paths: Vec<String>) -> PinGuard {
         {
-            let mut pinned = self.pinned.write();
+            let mut state = self.state.write();
             for path in &paths {
-                *pinned.entry(path.clone()).or_insert(0) += 1;
+                *state.pinned.entry(path.clone()).or_insert(0) += 1;
             }
         }
         PinGuard {
-            pinned: Arc::clone(&self.pinned),
+            state: Arc::clone(&self.state),
             paths,
         }
     }
 
+    /// Pin a set of chunk paths unless the garbage collector is deleting one of them
+    /// right now; in that case nothing is pinned and the path is returned.
+    pub fn try_pin(&self, paths: Vec<String>) -> std::result::Result<PinGuard, String> {
+        {
+            let mut state = self.state.write();
+            if let Some(path) = paths.iter().find(|p| state.deleting.contains(*p)) {
+                return Err(path.clone());
+            }
+            for path in &paths {
+                *state.pinned.entry(path.clone()).or_insert(0) += 1;
+            }
+        }
+        Ok(PinGuard {
+            state: Arc::clone(&self.state),
+            paths,
+        })
+    }
+
+    /// Claim a path for deletion. Fails (returns false) while a query holds it pinned;
+    /// once claimed, `try_pin` refuses the path until `end_delete`.
+    pub fn begin_delete(&self, path: &str) -> bool {
+        let mut state = self.state.write();
+        if state.pinned.get(path).copied().unwrap_or(0) > 0 {
+            return false;
+        }
+        state.deleting.insert(path.to_string());
+        true
+    }
+
+    /// Release a claim taken with `begin_delete`.
+    pub fn end_delete(&self, path: &str) {
+        self.state.write().deleting.remove(path);
+    }
+
     /// Check if a chunk path is currently pinned by any active query.
     pub fn is_pinned(&self, path: &str) -> bool {
-        self.pinned.read().get(path).copied().unwrap_or(0) > 0
+        self.state.read().pinned.get(path).copied().unwrap_or(0) > 0
     }
 
     /// Get the count of distinct chunks currently pinned.
     pub fn pinned_count(&self) -> usize {
-        self.pinned.read().values().filter(|&&v| v > 0).count()
+        self.state
+            .read()
+            .pinned
+            .values()
+            .filter(|&&v| v > 0)
+            .count()
     }
 }
 
@@ -59,18 +107,18 @@ impl ChunkPinRegistry {
 /// Created by [`ChunkPinRegistry::pin`]. Decrements the reference count
 /// for each pinned chunk when the query completes.
 pub struct PinGuard {
-    pinned: Arc<RwLock<HashMap<String, usize>>>,
+    state: Arc<RwLock<PinState>>,
     paths: Vec<String>,
 }
 
 impl Drop for PinGuard {
     fn drop(&mut self) {
-        let mut pinned = self.pinned.write();
+        let mut state = self.state.write();
         for path in &self.paths {
-            if let Some(count) = pinned.get_mut(path) {
+            if let Some(count) = state.pinned.get_mut(path) {
                 *count = count.saturating_sub(1);
                 if *count == 0 {
-                    pinned.remove(path);
+                    state.pinned.remove(path);
                 }
             }
         }
